@@ -243,7 +243,7 @@ CLAIMS = {
     'C20': {
         'text': 'C20_no_panic (no panic site reachable for ANY document, foreign Go values included: interface equality is partial in the '
                 'model), C20_navigation_type_error (steps on a foreign value fail with its Go type), C20_literal_comparisons_no_match. '
-                'Correspondence: documents with leaves of 26 non-JSON Go types (uncomparable ones included) against the model. From the path TEXT: C20_foreign_root_from_text — every path of steps and filters fails on a document that is a foreign value (it is a leaf), whatever its type, identity or self-equality.',
+                'Correspondence: documents with leaves of 26 non-JSON Go types (uncomparable ones included) against the model. From the path TEXT: C20_foreign_root_from_text — every path of steps and filters fails on a document that is a foreign value (it is a leaf), whatever its type, identity or self-equality; C20_foreign_value_at_depth_from_text (ErrSteps.v) — a path of name and index steps that reaches a foreign value and takes one more step there fails with type-unmatched naming that step (expected object, or array for an index; found the value\'s Go type), never a panic; the harness plants foreign values of every kind at generated locations (texts confirmed as Coq chain_path).',
         'note': NOTE_COMMON + EVAL_HYP + ' reflect.DeepEqual identity shortcut (same map object holding a func/NaN) is not modelled; such '
                 'cases are excluded from path-vs-path comparisons by the generator (DESIGN Appendix B).',
         'technique': T_EVAL},
